@@ -490,6 +490,9 @@ struct ConnPlan {
     abort_after: Option<usize>,
     chunk: usize,
     raw_tail: Option<Vec<u8>>,
+    /// requests from this index on are held back until the earlier ones were answered and the connection has
+    /// been idle for most of its idle timeout
+    late_from: Option<usize>,
 }
 
 #[derive(Debug, Default)]
@@ -506,7 +509,8 @@ async fn run_conn(tx: mpsc::UnboundedSender<(DuplexStream, SocketAddr)>, addr: S
     }
     let mut rng = Rng::new(&[seed, addr.port() as u64]);
     let mut bytes = Vec::new();
-    for r in &plan.reqs {
+    let first_part = plan.late_from.unwrap_or(plan.reqs.len());
+    for r in &plan.reqs[..first_part] {
         bytes.extend_from_slice(&(r.wire.len() as u16).to_be_bytes());
         bytes.extend_from_slice(&r.wire);
     }
@@ -530,9 +534,37 @@ async fn run_conn(tx: mpsc::UnboundedSender<(DuplexStream, SocketAddr)>, addr: S
         drop(client);
         return out;
     }
-    // read whatever comes until the server closes or nothing arrives for a while
     let mut buf: Vec<u8> = Vec::new();
     let mut tmp = vec![0u8; 65536];
+    if let Some(lf) = plan.late_from {
+        // wait for the answers to the first part (one each), let the connection sit idle for 2.6 of its 3 seconds, then ask again
+        let mut frames = 0;
+        while frames < lf {
+            match tokio::time::timeout(Duration::from_secs(2), client.read(&mut tmp)).await {
+                Ok(Ok(n)) if n > 0 => buf.extend_from_slice(&tmp[..n]),
+                _ => break,
+            }
+            frames = 0;
+            let mut q = 0;
+            while q + 2 <= buf.len() {
+                let l = u16::from_be_bytes([buf[q], buf[q + 1]]) as usize;
+                if q + 2 + l > buf.len() {
+                    break;
+                }
+                frames += 1;
+                q += 2 + l;
+            }
+        }
+        tokio::time::sleep(Duration::from_millis(2600)).await;
+        for r in &plan.reqs[lf..] {
+            let mut f = (r.wire.len() as u16).to_be_bytes().to_vec();
+            f.extend_from_slice(&r.wire);
+            if client.write_all(&f).await.is_err() {
+                break;
+            }
+        }
+    }
+    // read whatever comes until the server closes or nothing arrives for a while
     loop {
         match tokio::time::timeout(Duration::from_secs(4), client.read(&mut tmp)).await {
             Ok(Ok(0)) => {
@@ -598,11 +630,18 @@ fn stream_case(c: &mut Ctx, fam: &str, idx: u64) {
         } else {
             None
         };
-        plans.push((ConnPlan { reqs, abort_after, chunk: *rng.pick(&[1usize, 2, 7, 64, 100_000]), raw_tail }, addr));
+        plans.push((ConnPlan { reqs, abort_after, chunk: *rng.pick(&[1usize, 2, 7, 64, 100_000]), raw_tail, late_from: None }, addr));
+    }
+    // a connection whose second request arrives late in the idle window and takes the service a while
+    if rng.chance(1, 3) {
+        let addr: SocketAddr = "203.0.113.77:40077".parse().unwrap();
+        let fast = mk_req(rng.u16(), "s1", 77001, None);
+        let slow = mk_req(rng.u16(), &format!("w{}", rng.range(600, 1500)), 77002, None);
+        plans.push((ConnPlan { reqs: vec![fast, slow], abort_after: None, chunk: 100_000, raw_tail: None, late_from: Some(1) }, addr));
     }
     // the probe connection
     let probe_addr: SocketAddr = "198.51.100.9:5353".parse().unwrap();
-    plans.push((ConnPlan { reqs: vec![mk_req(rng.u16(), "s2", 99999, None)], abort_after: None, chunk: 100_000, raw_tail: None }, probe_addr));
+    plans.push((ConnPlan { reqs: vec![mk_req(rng.u16(), "s2", 99999, None)], abort_after: None, chunk: 100_000, raw_tail: None, late_from: None }, probe_addr));
     let ex = json!({"connections": plans.iter().map(|(p, a)| json!({"addr": a.to_string(), "abort_after": p.abort_after, "chunk": p.chunk, "tail": p.raw_tail.as_ref().map(|t| hex(t)), "requests": p.reqs.iter().map(|r| json!({"what": r.what, "wire": hex(&r.wire)})).collect::<Vec<_>>()})).collect::<Vec<_>>()});
     let rt = tokio::runtime::Builder::new_current_thread().enable_all().start_paused(true).build().unwrap();
     let plans2 = plans.clone();
@@ -741,6 +780,9 @@ fn stream_case(c: &mut Ctx, fam: &str, idx: u64) {
                 }
             }
             c.eval(&("stream", kind, nrec.min(40), plan.chunk.min(101), plan.reqs.len(), any_hostile));
+        }
+        if plan.late_from.is_some() {
+            c.count("stream_late_requests_answered", 1);
         }
         c.count("stream_connections_checked", 1);
     }
